@@ -1,4 +1,4 @@
-import Nstd.Avl.LemmasRun4
+import Nstd.Avl.LemmasHintM2
 import Nstd.Avl.LemmasHeight
 /-
   Property C01 — Map and MultiMap stay sorted, complete and logarithmically deep.
@@ -18,8 +18,12 @@ structure Inv (s : St) : Prop where
   avl : Avl s.t
   /-- search tree: keys ascend in in-order sequence (strictly for Map) -/
   sorted : if s.multi then SortedW s.t.inorder else SortedS s.t.inorder
-  /-- the `_size` counter and the length of the prev/next list -/
-  size : s.size = s.t.size ∧ s.order.length = s.size
+  /-- the `_size` counter -/
+  size : s.size = s.t.size
+  /-- the prev/next list (what iterators walk) is the in-order sequence of the items of the tree -/
+  order : s.order = ids s.t
+  /-- item ids (addresses) are pairwise distinct and none of them is on the free list -/
+  nodup : (ids s.t ++ s.free).Nodup
 
 theorem invT_run (multi : Bool) (ops : List Op) : InvT (run multi ops) ∧ (run multi ops).multi = multi := by
   unfold run
@@ -38,14 +42,36 @@ theorem invT_run (multi : Bool) (ops : List Op) : InvT (run multi ops) ∧ (run 
     obtain ⟨h1, h2⟩ := ih _ this.1
     exact ⟨h1, by rw [h2, this.2]⟩
 
+theorem invO_run (multi : Bool) (ops : List Op) : InvO (run multi ops) := by
+  unfold run
+  suffices h : ∀ s, InvT s → InvO s → InvO (ops.foldl step' s) from h _ (invT_init multi) (invO_init multi)
+  induction ops with
+  | nil => intro s _ hs; exact hs
+  | cons op ops ih =>
+    intro s hI hO
+    simp only [List.foldl_cons]
+    have : InvT (step' s op) ∧ InvO (step' s op) := by
+      unfold step'
+      cases h : step s op with
+      | none => exact ⟨hI, hO⟩
+      | some r => exact ⟨(step_invT s hI op r h).1, step_invO s hI hO op r h⟩
+    exact ih _ this.1 this.2
+
 /-- **Invariant.**  After any history the tree is an AVL-balanced search tree whose stored
-    height/slope fields are correct, and the size counter is the number of entries. -/
+    height/slope fields are correct, the size counter is the number of entries and the prev/next
+    list threads exactly the in-order sequence of the tree. -/
 theorem inv_run (multi : Bool) (ops : List Op) : Inv (run multi ops) := by
   obtain ⟨h, hm⟩ := invT_run multi ops
-  refine ⟨h.avl, ?_, h.size, h.olen⟩
+  have hO := invO_run multi ops
+  refine ⟨h.avl, ?_, h.size, hO.order, hO.nodup⟩
   cases multi with
   | false => rw [hm]; exact h.sortedS hm
   | true => rw [hm]; exact h.sortedW
+
+/-- **Iteration** `begin() … end()` (a walk over the prev/next list) yields the in-order
+    sequence of the tree — so everything said about `abs` below is about what iterators see. -/
+theorem iter_run (multi : Bool) (ops : List Op) : (run multi ops).iter = abs (run multi ops) :=
+  iter_eq_abs _ (invO_run multi ops)
 
 /-- Map iterates strictly ascending keys -/
 theorem sorted_run_map (ops : List Op) : (abs (run false ops)).Pairwise (fun a b => a.1 < b.1) := by
@@ -73,15 +99,16 @@ def Op.det (multi : Bool) : Op → Bool
 def Spec.run (multi : Bool) (ops : List Op) : List Spec.KV :=
   ops.foldl (fun xs op => match Spec.stepF multi xs op with | some r => r.1 | none => xs) []
 
-/-- **Refinement, one step from any reachable state** (contents, acceptance, and the results the
-    model reads off the tree: returned iterator of `remove`, `find`, `contains`, `count`). -/
+/-- **Refinement, one step from any reachable state**: the op is accepted iff the specification
+    accepts it, the contents follow the specification, and the returned value (iterator position,
+    `contains`, `count`, `front`/`back` value) is the specified one. -/
 theorem refines_step (multi : Bool) (ops : List Op) (op : Op) (hd : op.det multi = true) :
     match step (run multi ops) op with
     | some r => ∃ xs' ret, Spec.stepF multi (abs (run multi ops)) op = some (xs', ret) ∧ abs r.1 = xs' ∧
-                  (op.retByTree = true → r.2.ret = ret)
+                  r.2.ret = ret
     | none => Spec.stepF multi (abs (run multi ops)) op = none := by
   obtain ⟨h, hm⟩ := invT_run multi ops
-  have := step_spec (run multi ops) h op (by
+  have := step_full (run multi ops) h (invO_run multi ops) op (by
     intro p k v ⟨h1, h2⟩
     rw [hm] at h1; subst h1; subst h2
     simp [Op.det] at hd)
@@ -121,6 +148,69 @@ theorem refines (multi : Bool) (ops : List Op) (hd : ∀ op ∈ ops, op.det mult
       rw [h] at hsp
       obtain ⟨xs', ret, h1, h2, _⟩ := hsp
       rw [h1]; exact h2
+
+/-- **MultiMap hinted insert** `insert(position p, k, v)` from any reachable state: accepted iff
+    `p ≤ size`; the entry is inserted at a position `q` allowed by `Spec.HintPos` (directly in front of
+    the hint if `prev.key ≤ k < hint.key`; directly behind it if `hint.key ≤ k < next.key` or the hint
+    is the last entry; behind the hint inside the run of keys equal to `k` if `k = next.key`; otherwise
+    where a plain insert puts it) and the returned iterator is that position. -/
+theorem refines_hint_multi (ops : List Op) (p : Nat) (k v : Int) (hp : p ≤ (run true ops).size) :
+    ∃ r q, step (run true ops) (.insertAt p k v) = some r ∧
+      abs r.1 = (abs (run true ops)).take q ++ (k, v) :: (abs (run true ops)).drop q ∧
+      Spec.HintPos (abs (run true ops)) p k q ∧ r.2.ret = .it q := by
+  obtain ⟨h, hm⟩ := invT_run true ops
+  obtain ⟨r, q, h1, h2, h3, h4⟩ := insertAt_multi_spec _ h (invO_run true ops) hm p k v hp
+  exact ⟨r, q, by simp only [step, hp, if_true]; exact h1, h2, h3, h4⟩
+
+/-- the observable outcome of a step: `none` = rejected, else (contents after, returned value) -/
+def outcome (s : St) (op : Op) : Option (List Spec.KV × Ret) :=
+  (step s op).map (fun r => (abs r.1, r.2.ret))
+
+/-- **Refinement, complete**: from every reachable state every op — including the hinted MultiMap
+    insert — takes a step of the specification `Spec.Step`. -/
+theorem refines_rel (multi : Bool) (ops : List Op) (op : Op) :
+    Spec.Step multi (abs (run multi ops)) op (outcome (run multi ops) op) := by
+  obtain ⟨h, hm⟩ := invT_run multi ops
+  cases hd : op.det multi with
+  | true =>
+    have hdet : ∀ p k v, ¬ (multi = true ∧ op = .insertAt p k v) := by
+      intro p k v ⟨h1, h2⟩; subst h1; subst h2; simp [Op.det] at hd
+    have := refines_step multi ops op hd
+    have e : outcome (run multi ops) op = Spec.stepF multi (abs (run multi ops)) op := by
+      unfold outcome
+      cases hs : step (run multi ops) op with
+      | none => rw [hs] at this; simp only at this; rw [this]; rfl
+      | some r =>
+        rw [hs] at this
+        obtain ⟨xs', ret, h1, h2, h3⟩ := this
+        rw [h1, ← h2, ← h3]; rfl
+    rw [e]; exact Spec.Step.det op hdet
+  | false =>
+    cases op with
+    | insertAt p k v =>
+      have hmt : multi = true := by cases multi <;> simp [Op.det] at hd ⊢
+      subst hmt
+      have hlen := abs_length _ h
+      by_cases hp : p ≤ (run true ops).size
+      · obtain ⟨r, q, h1, h2, h3, h4⟩ := refines_hint_multi ops p k v hp
+        have e : outcome (run true ops) (.insertAt p k v)
+            = some ((abs (run true ops)).take q ++ (k, v) :: (abs (run true ops)).drop q, .it q) := by
+          unfold outcome; rw [h1]; simp only [Option.map_some]; rw [h2, h4]
+        rw [e]; exact Spec.Step.hint p k v q rfl (by omega) h3
+      · have e : outcome (run true ops) (.insertAt p k v) = none := by
+          unfold outcome; simp only [step, hp, if_false, Option.map_none]
+        rw [e]; exact Spec.Step.hintReject p k v rfl (by omega)
+    | insert k v => simp [Op.det] at hd
+    | removeKey k => simp [Op.det] at hd
+    | removeAt p => simp [Op.det] at hd
+    | removeFront => simp [Op.det] at hd
+    | removeBack => simp [Op.det] at hd
+    | clear => simp [Op.det] at hd
+    | find k => simp [Op.det] at hd
+    | contains k => simp [Op.det] at hd
+    | count k => simp [Op.det] at hd
+    | front => simp [Op.det] at hd
+    | back => simp [Op.det] at hd
 
 /-- **Lookup cost**: `find` makes at most two key comparisons per level of the tree. -/
 theorem find_cost (multi : Bool) (ops : List Op) (k : Int) :
@@ -169,7 +259,7 @@ theorem count_correct (ops : List Op) (k : Int) :
     obtain ⟨xs', ret, h1, h2, h3⟩ := this
     simp only [Spec.stepF, if_true, Option.some.injEq, Prod.mk.injEq] at h1
     refine ⟨r, rfl, ?_, ?_⟩
-    · rw [h3 rfl, ← h1.2]
+    · rw [h3, ← h1.2]
     · simp only [step, hm, if_true] at h
       split at h <;> (simp only [Option.some.injEq] at h; rw [← h])
 
